@@ -36,7 +36,7 @@ func init() { register(c19{}) }
 func (c19) ID() string    { return "C19" }
 func (c19) Level() string { return "fault_enumeration" }
 func (c19) Rule() string {
-	return "one case = one seeded join tree (depth<=6, fan-out 1..5, joins of one, nested joins, distinct leaf pointers) or one real configuration error with 1..8 planted violations; trees may contain the same error value or sub-tree twice; per case EVERY cancellation position k in 0..n is enumerated for three consumers (range+break, raw callback returning false, iter.Pull+stop), in 40% of the cases on ONE reused iterator value, plus re-entrant nested ranges over the same iterator value; for library errors the yielded errors must match the lines of Error() one by one; distinct = distinct plan hash; non-trivial = at least 2 leaves and at least one join node (so that at least one cancellation lands between siblings)"
+	return "one case = one seeded join tree (bushy: depth<=6, fan-out 1..5; or, 8% of the cases, a deep spine of 7..100 nested joins with the nested join at a random sibling position; joins of one, nested joins, distinct leaf pointers) or one real configuration error with 1..8 planted violations; trees may contain the same error value or sub-tree twice; per case EVERY cancellation position k in 0..n is enumerated for three consumers (range+break, raw callback returning false, iter.Pull+stop), in 40% of the cases on ONE reused iterator value, plus re-entrant nested ranges over the same iterator value; for library errors the yielded errors must match the lines of Error() one by one; distinct = distinct plan hash; non-trivial = at least 2 leaves and at least one join node (so that at least one cancellation lands between siblings)"
 }
 func (c19) Budget(tier string) (int, time.Duration) {
 	if tier == "thorough" {
@@ -57,7 +57,7 @@ func (c19) FaultKinds() []string {
 	return []string{"F8_cancel_range_break", "F8_cancel_callback_false", "F8_cancel_pull_stop", "F8_reentrant_range_over_same_iterator"}
 }
 func (c19) Probes() []string {
-	return []string{"cancel_at_first", "cancel_at_last", "cancel_between_siblings_of_nested_join", "join_of_one", "real_cfg_error_tree", "no_cancel_full_traversal", "real_cfg_error_count_checked", "same_error_value_twice_in_tree", "same_iterator_value_reused"}
+	return []string{"cancel_at_first", "cancel_at_last", "cancel_between_siblings_of_nested_join", "join_of_one", "real_cfg_error_tree", "no_cancel_full_traversal", "real_cfg_error_count_checked", "same_error_value_twice_in_tree", "same_iterator_value_reused", "tree_deeper_than_16", "tree_deeper_than_64"}
 }
 
 func genTree(r *R, depth int, next *int) TNode {
@@ -82,7 +82,53 @@ func genTree(r *R, depth int, next *int) TNode {
 	return t
 }
 
+// genSpine builds a deep, narrow tree: a chain of `depth` nested joins, the
+// nested join at a random position among 0..3 sibling leaves (so first, middle,
+// last and only-child positions all occur at every depth). The documented
+// domain is "arbitrarily nested errors.Join"; depth is where an iterator that
+// keeps its own traversal state (explicit stack, pooled frames, depth-limited
+// recursion) differs from the plain recursive one.
+func genSpine(r *R, depth int, next *int) TNode {
+	leaf := func() TNode { *next++; return TNode{Leaf: *next} }
+	if depth <= 0 {
+		return leaf()
+	}
+	n := r.Intn(4)
+	at := r.Intn(n + 1)
+	if r.P(0.3) {
+		at = 0 // left-leaning: everything else is visited after the deep part
+	}
+	t := TNode{}
+	for i := 0; i <= n; i++ {
+		if i == at {
+			t.Kids = append(t.Kids, genSpine(r, depth-1, next))
+		} else if r.P(0.15) {
+			t.Kids = append(t.Kids, genTree(r, 2, next))
+		} else {
+			t.Kids = append(t.Kids, leaf())
+		}
+	}
+	return t
+}
+
+func treeDepth(t TNode) int {
+	d := 0
+	for _, k := range t.Kids {
+		d = max(d, 1+treeDepth(k))
+	}
+	return d
+}
+
 func (c19) Gen(r *R, tier string) any {
+	if r.P(0.08) {
+		id := 0
+		d := pick(r, []int{7, 8, 9, 15, 16, 17, 18, 31, 32, 33, 34, 63, 64, 65, 66, 100})
+		if r.P(0.5) {
+			d = r.Range(7, 80)
+		}
+		t := genSpine(r, d, &id)
+		return &C19Plan{Tree: &t, ReuseSeq: r.P(0.4)}
+	}
 	if r.P(0.25) {
 		c := genCfg(r)
 		return &C19Plan{Cfg: &c, Planted: genPlanted(r, r.Range(1, 8)), ViaReconf: r.P(0.5), ReuseSeq: r.P(0.4)}
@@ -186,6 +232,12 @@ func (c19) Exec(plan any, c *Ctx) *Violation {
 		joins, joinOfOne = b.joins, b.joinOfOne
 		if b.shared {
 			c.hit("same_error_value_twice_in_tree")
+		}
+		if d := treeDepth(*p.Tree); d > 64 {
+			c.hit("tree_deeper_than_64")
+			c.hit("tree_deeper_than_16")
+		} else if d > 16 {
+			c.hit("tree_deeper_than_16")
 		}
 	} else {
 		bad := plantAll(*p.Cfg, p.Planted)
